@@ -77,13 +77,17 @@ func bufScenarioX(capacity, bufMax int, producers [][]string, consumers [][]stri
 	if strings.HasPrefix(mode, "reuse") {
 		name += "/sync.Pool-policy" + mode[5:]
 	}
+	horizon, maxSteps := int64(400*time.Millisecond), 8000
+	if strings.HasPrefix(mode, "trim") && len(mode) > 5 { // the long burst scripts need more virtual time (each value waits for a loader pass)
+		horizon, maxSteps = int64(5*time.Second), 60000
+	}
 	return &vsched.Scenario{
 		Name:     name,
 		Bound:    bound,
 		Delay:    delay,
 		TimerDev: true,
-		MaxSteps: 8000,
-		Horizon:  int64(400 * time.Millisecond),
+		MaxSteps: maxSteps,
+		Horizon:  horizon,
 		Body: func() {
 			fullTick, emptyTick, maxHeld = 0, 0, 0
 			curMax, prevHeld, justShrunk = bufMax, 0, false
@@ -101,7 +105,11 @@ func bufScenarioX(capacity, bufMax int, producers [][]string, consumers [][]stri
 			if strings.HasPrefix(mode, "trim") {
 				// one node hook kept by the queue, the free-node worker trims every 5 virtual ms, sync.Pool retains
 				vsched.PoolRetain = int(mode[4] - '0')
-				q = fpgo.NewBufferedChannelQueue[int](capacity, bufMax, 1).SetFreeNodeHookPoolIntervalDuration(5 * time.Millisecond)
+				hooks := 1
+				if len(mode) > 5 { // "trim<policy>h<hooks>"
+					hooks = int(mode[6] - '0')
+				}
+				q = fpgo.NewBufferedChannelQueue[int](capacity, bufMax, hooks).SetFreeNodeHookPoolIntervalDuration(5 * time.Millisecond)
 			}
 			ps = probeState{q}
 			var wg sync.WaitGroup
@@ -580,6 +588,19 @@ func scenarios(tier string) []*vsched.Scenario {
 		}
 		burst := [][]string{append(rounds, six...)}
 		out = append(out, bufScenarioX(1, 5, burst, nil, "take", 0, false, "trim1"), bufScenarioX(1, 5, burst, nil, "take", 0, false, "trim2"))
+		// longer: eight bursts of 4 to 9 values (a trim cuts off chains of different lengths, the nodes come back in
+		// either order), the queue keeping 1 or 2 node hooks
+		var long []string
+		for k := 0; k < 8; k++ {
+			for i := 0; i < 4+(k*5)%6; i++ {
+				long = append(long, "offer")
+			}
+			long = append(long, "drainall")
+		}
+		long = append(long, six...)
+		for _, m := range []string{"trim1h1", "trim2h1", "trim1h2", "trim2h2"} {
+			out = append(out, bufScenarioX(1, 8, [][]string{long}, nil, "take", 0, false, m))
+		}
 		// every sequence of three bursts with 1-3 values in the overflow buffer, each drained completely before
 		// the next (the buffer's node hooks are re-used from burst to burst), under the pool policies
 		for code := 0; code < 27; code++ {
